@@ -450,16 +450,21 @@ def r5_registration(ctx, rule='C05.R5'):
             ctx.check(ok, 'drop-removes-unless-resolved', "dropping an unresolved handle removes its entry (a dropped sleep leaves no stale waker)", rm[0].where(), [show_atom(a) for a in atoms])
     # every registration gets its own entry in the slot: TimerSlot::add stores the entry it is given on every path (each sleep removes
     # exactly its own entry again when dropped - one entry shared by two sleeps of a task is lost with the first of them)
-    fa = ctx.anchor(TS + '::add')
-    if fa:
-        ctx.touch(fa)
-        ps = [s for s in fa.calls() if s.name.split('::')[-1] in ('push', 'push_back', 'insert', 'extend_one') and s.args and receiver_field(fa.expr_operand(s.args[0], s.b, 'T')) == 'entrys']
-        if ctx.floor('entry store in TimerSlot::add', len(ps), 1):
-            s0 = ps[0]
+    stores = []
+    for fa in P.fn_list:
+        if not fa.key.startswith(D) or fa.kind == 'promoted':
+            continue
+        for s in fa.calls():
+            if s.name.split('::')[-1] in ('push', 'push_back', 'insert', 'extend_one') and s.argtys and len(s.argtys) > 1 and s.argtys[-1].endswith('TimerSlotEntry'):
+                stores.append(s)
+    if ctx.floor('stores of a timer entry into a slot (TimerSlot::add)', len(stores), 1):
+        for s0 in stores:
+            fa = s0.fn
+            ctx.touch(fa)
             val = peel(fa.expr_operand(s0.args[-1], s0.b, 'T'))
             conds = [a for _, a in fa.guard_atoms(s0.b) if a and a[0] in ('bool', 'cmp')]
-            ctx.check(val[0] == 'arg' and fa.postdominates_entry(s0.b) and not conds, 'slot-keeps-every-entry',
-                      'TimerSlot::add stores the given entry unconditionally (one entry per registered sleep)', s0.where(), [show_atom(a) for a in conds][:3])
+            ctx.check(val[0] == 'arg' and not conds, 'slot-keeps-every-entry',
+                      'a slot stores the entry it is given unconditionally (one entry per registered sleep)', s0.where(), [show_atom(a) for a in conds][:3])
     # typestate: `handle` is Some only while a registration for the CURRENT deadline exists; whoever changes the deadline releases it
     n_dw = 0
     for f in P.fn_list:
